@@ -41,7 +41,13 @@ def gen_signal(rng, g, i=None, kinds=None):
     def stratum(seq, salt):
         if i is None:
             return common.pick(rng, seq)
-        return seq[(i // salt) % len(seq)]
+        # balanced but mutually DE-CORRELATED strata: plain modular counters alias with each other and with the 16 flag sets
+        # (i % 8 is a function of i % 16: each path family would only ever meet two flag sets). Mix the index first.
+        z = (i * 0x9E3779B97F4A7C15 + salt * 0xBF58476D1CE4E5B9) & 0xFFFFFFFFFFFFFFFF
+        z ^= z >> 31
+        z = (z * 0x94D049BB133111EB) & 0xFFFFFFFFFFFFFFFF
+        z ^= z >> 29
+        return seq[z % len(seq)]
     fmin, df, dt, F, T = axes_of(g), g['df'], g['dt'], g['fchans'], g['tchans']
     # start position in channel units
     r = rng.random()
